@@ -91,6 +91,7 @@ class FakeWriter:
     def write(self, data):
         self.gw.tr.ev("w.write", self.wid, len(data))
         if self.mode == "fail" or self.closed:
+            self.gw.wfault(self, "write")
             raise ConnectionResetError("fake: write on a broken connection")
         self.written.append(bytes(data))
 
@@ -100,6 +101,7 @@ class FakeWriter:
             self.gw.tr.ev("w.drain.susp", self.wid)
             await _sleep(0.001)
         if m in ("drainfail", "suspfail") or self.mode in ("drainfail", "suspfail"):
+            self.gw.wfault(self, "drain")
             raise ConnectionResetError("fake: drain failed")
 
     def close(self):
@@ -128,6 +130,12 @@ class Gateway:
         self.refuse_next = 0
         self.writers = []
         self.readers = []
+        self.wfaults = []           # [virtual time, wid, "write"|"drain", client state, writer is the client's current one]
+
+    def wfault(self, w, what):
+        c = self.tr.client
+        self.wfaults.append([asyncio.get_running_loop().time(), w.wid, what,
+                             c._state.value if c is not None else None, bool(c is not None and c.writer is w)])
 
     def _spec(self):
         i = len(self.attempt_times)
@@ -838,6 +846,7 @@ async def _session(spec, tr, gw, obs, loop):
                     bo.setdefault(b["tid"], []).append(e[1])
     obs["backoffs"] = list(bo.values())
     obs["faults"] = [[b["vt"], b["what"]] for b in tr.blocks if b["kind"] == "env" and b["what"] in ("eof", "reset")]
+    obs["wfaults"] = list(gw.wfaults)
     try:
         labels = labelise(tr.blocks)
         obs["labels"] = [[a, s] for a, s in labels]
